@@ -2,6 +2,7 @@ import QuantemModel.Model.SerializeSpec
 import QuantemModel.Lemmas.SerializeCanon
 import QuantemModel.Lemmas.SeqKeys
 import QuantemModel.Lemmas.SerializeExt
+import QuantemModel.Generated.SerializeDispatch
 /-!
 C01 — serializer round-trip fidelity, for the executable model of serialize.py
 (Model/Serialize.lean).  Only property theorems and non-vacuity examples live here.
@@ -605,6 +606,117 @@ example : ∀ op ∈ [HOp.save hObj2 { hA with level := some 10, mode := "o" }, 
 example : ∃ fs, (hrun [] [HOp.save hObj hA, .save hObj2 hA]).1 = fs ∧ (hrun [] [HOp.save hObj hA, .save hObj2 hA]).2.length = 2 :=
   ⟨_, rfl, rfl⟩
 example : isNumericScalar (numFeatOf (.npScalar "float64" (.float 0))) = true := by decide
+
+/-! ### the type-dispatch chain of `_serialize_value` (`Model/SerializeDispatch.lean`,
+`Generated/SerializeDispatch.lean` — the latter regenerated from the source on every run) -/
+
+section Dispatch
+open QuantemModel.SerDispatch QuantemModel.Generated.SerializeDispatch
+
+private theorem ite_cond_congr {α : Type} (c c' : Bool) (a x y : α) (hc : c = c') (h : x = y) :
+    (if c then a else x) = (if c' then a else y) := by subst hc; subst h; rfl
+
+/-- **the chain in the source is the modelled chain**: the if/elif chain translated mechanically
+from the current `_serialize_value` equals the hand model for EVERY combination of the 30 facts
+(proved test by test, each test up to Boolean equivalence, so reordered conjuncts / type tuples,
+De Morgan forms and temporaries in the source do not matter) -/
+theorem generated_dispatch_eq_model (f : Feat) : dispatchGen f = dispatch f := by
+  unfold dispatchGen dispatch
+  repeat' (first | rfl | apply ite_cond_congr)
+  all_goals (first | grind | (simp [Bool.and_comm, Bool.or_comm, Bool.and_left_comm, Bool.or_left_comm]; done))
+
+/-- **every supported value kind reaches its own branch** — stated about the translated source
+itself: tensors and Parameters (which also live in a torch module and have `dtype`/`item`),
+optimizers and schedulers (torch modules by name), `torch.Generator` (module branch, not the
+`get_state` branch), arrays incl. 0-d (not the NumPy-scalar duck test), `bool` / `np.float64` /
+`np.str_` (Python scalars), the other NumPy reals (`.item()`), complex scalars (fallback), paths,
+AutoSerialize objects, list/tuple/dict, set, generators, and the dill fallback kinds -/
+theorem generated_dispatch_kind : ∀ k, dispatchGen (featOf k) = branchOf k := by
+  intro k; cases k <;> rfl
+
+theorem dispatch_kind : ∀ k, dispatch (featOf k) = branchOf k := by
+  intro k; cases k <;> rfl
+
+/-- the chain is "first test that holds, in the code's order" … -/
+theorem dispatch_is_first_match (f : Feat) : dispatch f = firstMatch f chain := by
+  rfl
+
+theorem firstMatch_head (f : Feat) (l : List Branch) :
+    firstMatch f l = ((l.filter (fun b => testOf b f)).head?).getD .fallback := by
+  induction l with
+  | nil => rfl
+  | cons b bs ih =>
+    by_cases h : testOf b f = true
+    · simp [firstMatch, h]
+    · simp [firstMatch, h, ih]
+
+/-- … for every combination of facts: the branch taken is the head of the list of all tests that hold -/
+theorem dispatch_first_match (f : Feat) : dispatch f = ((matching f).head?).getD .fallback := by
+  rw [dispatch_is_first_match, firstMatch_head]; rfl
+
+/-- the test of the branch taken holds -/
+theorem dispatch_test_holds (f : Feat) : testOf (dispatch f) f = true := by
+  rw [dispatch_is_first_match]
+  generalize chain = l
+  induction l with
+  | nil => rfl
+  | cons b bs ih =>
+    by_cases h : testOf b f = true
+    · simp [firstMatch, h]
+    · simp [firstMatch, h, ih]
+
+/-- **order matters**: for these kinds several tests hold, and only the position in the chain
+sends them to the branch whose stored form `decode` restores (an ndarray would be stored as a
+JSON attribute by the NumPy-scalar duck test, a Parameter or an optimizer as a whole module, …) -/
+theorem order_decides :
+    matching (featOf .ndarray) = [.ndarray, .npScalar, .fallback] ∧
+    matching (featOf .npFloat64) = [.scalar, .npScalar, .fallback] ∧
+    matching (featOf .npStr) = [.scalar, .npScalar, .fallback] ∧
+    matching (featOf .parameter) = [.tensor, .module, .npScalar, .fallback] ∧
+    matching (featOf .optimizer) = [.optimizer, .module, .fallback] ∧
+    matching (featOf .scheduler) = [.scheduler, .module, .fallback] ∧
+    matching (featOf .summaryWriter) = [.torchLogger, .module, .fallback] ∧
+    matching (featOf .torchGenerator) = [.module, .torchRng, .fallback] ∧
+    matching (featOf .torchSize) = [.container, .fallback] ∧
+    matching (featOf .npComplex) = [.fallback] := by decide
+
+/-- **the value model follows the chain**: what `encode` stores for a value of the universe shows
+exactly the branch the dispatch chain takes for the Python kind of that value -/
+theorem encode_follows_dispatch (v : Val) (h : v ≠ .torchRng) :
+    nodeObs (encode {} v) = obsOf (dispatch (featOf (kindOf v))) := by
+  rw [dispatch_kind]
+  cases v with
+  | scalar s => cases s <;> simp [encode, nodeObs, kindOf, branchOf, obsOf]
+  | npScalar dt s =>
+    cases s <;> simp only [kindOf, encode, nodeObs] <;> first | rfl | (split <;> rfl)
+  | path p => simp [encode, nodeObs, kindOf, branchOf, obsOf]
+  | ndarray dt sh d =>
+    simp only [encode, writeNdarray, kindOf]
+    split
+    · rfl
+    · split <;> rfl
+  | torch k c t => cases k <;> simp [encode, nodeObs, kindOf, branchOf, obsOf, ftrue, fget, torchFlag]
+  | fallback c t => simp [encode, nodeObs, kindOf, branchOf, obsOf]
+  | rawBytes p => simp [encode, nodeObs, kindOf, branchOf, obsOf]
+  | npRng b => simp [encode, nodeObs, kindOf, branchOf, obsOf, ftrue, fget]
+  | torchRng => exact absurd rfl h
+  | pyLogger n l => simp [encode, nodeObs, kindOf, branchOf, obsOf, ftrue, fget]
+  | list xs => simp only [encode, encodeSeq]; split <;> simp [nodeObs, kindOf, branchOf, obsOf, fget]
+  | tuple xs => simp only [encode, encodeSeq]; split <;> simp [nodeObs, kindOf, branchOf, obsOf, fget]
+  | set xs =>
+    simp only [encode, encodeSeq]
+    by_cases hf : (xs.all isNumeric && !xs.isEmpty) = true
+    · simp [hf, nodeObs, kindOf, branchOf, obsOf, fget, fset]
+    · simp [hf, nodeObs, kindOf, branchOf, obsOf, fget, fset]
+  | dict kvs => simp [encode, nodeObs, kindOf, branchOf, obsOf, ftrue, fget]
+  | obj c a => simp [encode, nodeObs, kindOf, branchOf, obsOf, ftrue, fget]
+
+example : dispatchGen (featOf .parameter) = .tensor := rfl
+example : dispatch { hasDtype := true, hasItem := true, isNdarray := true, isSet := true } = .ndarray := rfl
+example : nodeObs (encode {} (.set [.scalar (.int 1)])) = "set" := by
+  rw [encode_follows_dispatch _ (by simp)]; rfl
+
+end Dispatch
 
 /-! ### non-vacuity: a depth-4 graph with every value kind is well-formed and round-trips -/
 
